@@ -55,3 +55,22 @@ Proof.
   destruct (gv_tls v); [|discriminate]. destruct (gv_san_ext v); simpl in *; [|discriminate].
   destruct (gv_san_critical v), (gv_subject_nonempty v); simpl in *; discriminate.
 Qed.
+
+(* ---------- the raw GeneralNames walkers ---------- *)
+Theorem raw_lints_perm : forall v san' ian', Permutation (rv_san v) san' -> Permutation (rv_ian v) ian' ->
+  all_raw_lints (mkRview (rv_san_ext v) san' (rv_ian_ext v) ian') = all_raw_lints v.
+Proof.
+  intros v san' ian' P Q. assert (PS := Permutation_sym P). assert (QS := Permutation_sym Q).
+  unfold all_raw_lints, r_san_dns_not_ia5, r_ian_dns_not_ia5, r_san_uri_not_ia5, r_ian_uri_not_ia5, r_san_empty_name, r_ian_empty_name,
+         tagged_not_ia5, has_empty_name.
+  cbn [rv_san_ext rv_san rv_ian_ext rv_ian].
+  rewrite !(existsb_perm _ san' (rv_san v) PS), !(existsb_perm _ ian' (rv_ian v) QS). reflexivity.
+Qed.
+
+(* C20: with both extensions present and the same members, the subjectAltName and issuerAltName copies agree *)
+Theorem raw_twins_agree : forall v, rv_san_ext v = rv_ian_ext v -> rv_san v = rv_ian v ->
+  r_san_dns_not_ia5 v = r_ian_dns_not_ia5 v /\ r_san_uri_not_ia5 v = r_ian_uri_not_ia5 v /\ r_san_empty_name v = r_ian_empty_name v.
+Proof.
+  intros v E N. unfold r_san_dns_not_ia5, r_ian_dns_not_ia5, r_san_uri_not_ia5, r_ian_uri_not_ia5, r_san_empty_name, r_ian_empty_name.
+  rewrite E, N. repeat split.
+Qed.
